@@ -10,9 +10,9 @@
       [spec_ok]  the specification monitor accepts the history: the multiset of written record ids is the
                  set of enabled planned records, each exactly once; every chunk equals the solo line;
                  no overlap; no disabled record formatted;
-      [model_ok] the LTS under the discipline, run to the end by the round-robin scheduler on the abstract
-                 program (line c r := [r]), delivers the same multiset of records (pi(model) = pi(impl)),
-                 its schedule passes the no-overlap monitor and it makes one Write per enabled record. *)
+      [model_ok] the LTS under the discipline ACCEPTS the observed order of Write calls (driven thread by thread
+                 in that order, line c r := [r]) and delivers exactly that sequence - so every goroutine's records
+                 appear in its program order -, passes the no-overlap monitor, one Write per enabled record. *)
 From Coq Require Import List NArith ZArith Arith Bool.
 Import ListNotations.
 From Glb Require Import Model.LoggerConc.
@@ -42,16 +42,50 @@ Definition prog_of (nthr : nat) (ps : list planned) : list (list (instr unit N))
 Definition en_of (ps : list planned) (r : N) : bool :=
   existsb (fun p => N.eqb (p_id p) r && p_enabled p) ps.
 
-Definition model_run (f : cflags) (nthr : nat) (ps : list planned) :=
-  sched_rr unit N (fun _ r => [r]) (en_of ps) (fun _ _ => 0%N) f ((length ps + 2) * (10 + 3 * nthr)) (init unit N (prog_of nthr ps)) [].
+(** The model is driven by the OBSERVED order of the Write calls: for each observed chunk, in order, the thread
+    that planned that record is advanced (through the disabled records in front of it, which end at the gate,
+    and through one complete call Gate .. PoolPut|Drop); at the end every thread is drained.  The run must be
+    accepted by the LTS, finish, deliver exactly the observed sequence of records (so each goroutine's records
+    appear in its program order) and pass the no-overlap monitor. *)
+Fixpoint drive (f : cflags) (en : N -> bool) (fuel : nat) (s : state unit N) (t : nat) (acc : list label) : state unit N * list label :=
+  match fuel with
+  | O => (s, acc)
+  | S k =>
+      match next_label unit N f s t with
+      | Some l =>
+          match step unit N (fun _ r => [r]) en (fun _ _ => 0%N) f s l with
+          | Some s' =>
+              match l with
+              | LPoolPut _ | LDrop _ => (s', acc ++ [l])
+              | _ => drive f en k s' t (acc ++ [l])
+              end
+          | None => (s, acc)
+          end
+      | None => (s, acc)
+      end
+  end.
+
+Definition thread_of (ps : list planned) (id : N) : nat :=
+  match find (fun p => N.eqb (p_id p) id) ps with Some p => p_thread p | None => 0 end.
+
+Definition model_run (f : cflags) (nthr : nat) (ps : list planned) (ws : list wrote) : state unit N * list label :=
+  let en := en_of ps in
+  let fuel := 12 * (length ps + 1) in
+  let after_obs :=
+    fold_left (fun (sa : state unit N * list label) w => drive f en fuel (fst sa) (thread_of ps (w_id w)) (snd sa))
+              ws (init unit N (prog_of nthr ps), []) in
+  (* drain: what is left are disabled records (and, if the observation lacks a record, its call) *)
+  fold_left (fun (sa : state unit N * list label) t =>
+               fold_left (fun sa' _ => drive f en fuel (fst sa') t (snd sa')) (seq 0 (S (length ps))) sa)
+            (seq 0 nthr) after_obs.
 
 Record verdict := mkV { spec_ok : bool; model_ok : bool; nwrites : nat }.
 
 Definition check_case (nthr : nat) (ps : list planned) (ws : list wrote) (overlaps formatted_disabled : nat) : verdict :=
-  let (s, sched) := model_run good_flags nthr ps in
+  let (s, sched) := model_run good_flags nthr ps ws in
   {| spec_ok := monitor ps ws overlaps formatted_disabled;
      model_ok := finished unit N s
-                 && list_eqb (sort (concat (dest unit N s))) (sort (map w_id ws))
+                 && list_eqb (concat (dest unit N s)) (map w_id ws)
                  && no_overlap None sched
                  && forallb (fun t => Nat.eqb (count_writes t sched)
                                         (length (filter (fun p => Nat.eqb (p_thread p) t && p_enabled p) ps))) (seq 0 nthr);
